@@ -60,6 +60,7 @@ func checkC11(ctx *Ctx, r *Report) {
 	c01GoWireNames(ctx, r)
 	c11HuntedRules(ctx, r)
 	c02PythonIdentifierCharacters(ctx, r)
+	c11AbsentStaysAbsent(ctx, r)
 	c11ThirdRound(ctx, r)
 	c06NullableGuardExact(ctx, r)
 	c11HintMonotone(ctx, r)
@@ -2325,3 +2326,34 @@ func c01StrictDecoderNulls(ctx *Ctx, r *Report) {
 		"the array branch emits `x = cog.ToPtr(append(*x, item))` for a nullable reference to a list and never initialises x: `items?: #Items` with `#Items: [...#Item]` starts as a nil pointer — UnmarshalJSONStrict panics on the valid document {\"items\":[{…}]}")
 }
 
+
+// c11AbsentStaysAbsent: from_json builds the loaded object with the constructor, which sets constants and schema
+// defaults. For a property that is not required the document may not hold it, and to_json writes whatever is not
+// None: the function that writes from_json resets, under `"<name>" not in data`, the non-required properties the
+// constructor sets (constants, constant references, defaults).
+func c11AbsentStaysAbsent(ctx *Ctx, r *Report) {
+	fn := ctx.LookupMethod("internal/jennies/python", "RawTypes", "generateFromJSONMethod")
+	fd, _ := ctx.DeclOf(fn)
+	if fd == nil || fd.Body == nil {
+		r.Undecided("anchor lost: python.RawTypes.generateFromJSONMethod")
+		return
+	}
+	selects, resets := false, false
+	ast.Inspect(fd.Body, func(m ast.Node) bool {
+		switch x := m.(type) {
+		case *ast.IfStmt:
+			c := exprString(x.Cond)
+			if strings.Contains(c, "Required") && strings.Contains(c, "IsConcreteScalar") && strings.Contains(c, "Default") {
+				selects = true
+			}
+		case *ast.BasicLit:
+			if x.Kind == token.STRING && strings.Contains(x.Value, "not in data") && strings.Contains(x.Value, "= None") {
+				resets = true
+			}
+		}
+		return true
+	})
+	r.Check(selects && resets, "skeleton/python-absent-stays-absent", "python from_json resets what the constructor set for absent optional properties", fd.Pos(),
+		"non-required constants and defaulted properties are collected and reset under `not in data`",
+		"from_json returns cls(**args) as it is: an optional constant (`kind?: \"root\"`) or an optional property with a default is set by the constructor although the document does not hold it, and to_json writes it — {\"name\":\"x\"} comes back as {\"kind\":\"root\",\"name\":\"x\"}, while Go re-emits the document unchanged")
+}
